@@ -29,7 +29,7 @@ GEN_MODULES = [("GenTheta", ["theta/hash_table.rs", "theta/serialization.rs", "t
                  "theta/sketch.rs": ["preamble_longs"]})]
 OPNAMES = {1: "update", 2: "insert_hash", 3: "update_preimage", 4: "trim", 5: "reset", 6: "compact", 7: "dump",
            8: "layout", 9: "layout_exact", 10: "serialize", 11: "serialize_compressed", 12: "deserialize", 13: "reserialize",
-           14: "roundtrip"}
+           14: "roundtrip", 15: "roundtrip_slot"}
 CORR_MASK = [1, 2, 3, 4, 5, 6, 7, 9, 10]   # op 8 (raw layout at any time) is judged by the layout oracle only
 
 M = (1 << 64) - 1
@@ -307,11 +307,23 @@ def crafted_entries(rng, n, width, limit):
     return out
 
 
+def gen_big_codec_case(rng, cid, n):
+    """a compact sketch with exactly n retained entries (entry-count byte width at a power of 256), obtained by
+    deserializing a spec-encoded image, then forked through both writers (op 15)"""
+    cfg, theta0 = cfg_of(rng, lg_k=5, p=1.0)
+    theta = rng.choice([MAX_THETA, 1 << 50])
+    es = crafted_entries(rng, n, rng.randint(2, 12), theta)
+    assert len(es) == n
+    img = enc_image(rng.choice([3, 4]), es, theta, cfg[4], True, False)
+    ops = [(7, []), (12, img), (15, [1]), (15, [0]), (13, [1])]
+    return Case(cid, cfg, ops, tag="theta-codec-big%d" % n)
+
+
 def gen_codec_case(rng, cid, tier):
     """a sketch built from crafted hashes (hook) or items, then serialized both ways, forked through the image"""
     kind = rng.choice(["crafted", "crafted", "crafted", "stream", "screened", "empty"])
     if kind == "crafted":
-        n = rng.choice([0, 1, 2, 3, 7, 8, 9, 15, 16, 17, 23, 24, 25, 31, 63, 64, 65, rng.randint(0, 300)])
+        n = rng.choice([0, 1, 2, 3, 7, 8, 9, 15, 16, 17, 23, 24, 25, 31, 63, 64, 65, 255, 256, 257, rng.randint(0, 300)])
         if tier == "thorough" and rng.random() < 0.1:
             n = rng.randint(300, 4100)
         if tier == "quick" and rng.random() < 0.03:
@@ -402,16 +414,20 @@ def enc_image(variant, entries, theta, seed_hash, ordered, empty, si_flag=False)
     return out + le(n, neb) + bitstream(ds, w)
 
 
-def random_abs(rng, variant):
+def random_abs(rng, variant, shape=None):
     """a random abstract compact sketch that the variant can express"""
     theta = rng.choice([MAX_THETA, MAX_THETA, rng.randint(2, MAX_THETA - 1), 1 << rng.randint(8, 62)])
-    shape = rng.choice(["empty", "single", "zero", "few", "few", "block", "many"])
+    shape = shape or rng.choice(["empty", "single", "zero", "few", "few", "block", "many", "p256"])
     n = {"empty": 0, "single": 1, "zero": 0, "few": rng.randint(2, 7), "block": rng.choice([8, 16, 9, 15, 24]),
-         "many": rng.randint(10, 90)}[shape]
+         "many": rng.randint(10, 90), "p256": rng.choice([255, 256, 257]), "p65536": rng.choice([65535, 65536, 65537])}[shape]
+    if shape == "zero":
+        theta = rng.choice([rng.randint(2, MAX_THETA - 1), 1 << rng.randint(8, 62)])    # estimating with zero entries
+    if shape in ("p256", "p65536"):
+        theta = max(theta, 1 << 40)
     if shape == "empty":
         theta = MAX_THETA
     n = min(n, theta - 1)
-    es = crafted_entries(rng, n, rng.randint(1, 63), theta)
+    es = crafted_entries(rng, n, rng.randint(1, 63) if n < 200 else rng.randint(1, 16), theta)
     ordered = True
     if variant == 3 and rng.random() < 0.4 and len(es) > 1:
         rng.shuffle(es); ordered = False
@@ -427,16 +443,23 @@ def random_abs(rng, variant):
     return es, theta, ordered, empty
 
 
-def gen_foreign_case(rng, cid, tier):
+def gen_foreign_case(rng, cid, tier, big=False):
     """C13: images of every format variant, written by the independent encoder, fed to deserialize"""
     cfg, _ = cfg_of(rng, lg_k=5)
     sh = cfg[4]
     ops = [(7, [])]
-    for _ in range(10 if tier == "quick" else 30):
-        variant = rng.choice([1, 2, 3, 3, 4, 4])
-        es, theta, ordered, empty = random_abs(rng, variant)
+    # always: estimating images without entries (serVer 2 and 3: NOT empty), entry counts at powers of 256 (serVer 4)
+    forced = [(2, "zero"), (3, "zero"), (4, "p256"), (rng.choice([1, 2, 3]), "p256")]
+    if big:
+        forced.append((4, "p65536"))
+    for i in range(10 if tier == "quick" else 30):
+        if i < len(forced):
+            variant, shape = forced[i]
+        else:
+            variant, shape = rng.choice([1, 2, 3, 3, 4, 4]), None
+        es, theta, ordered, empty = random_abs(rng, variant, shape)
         img = enc_image(variant, es, theta, sh, ordered, empty, si_flag=rng.random() < 0.5)
-        ops.append((12, img)); ops.append((13, [0])); ops.append((13, [1]))
+        ops.append((12, img)); ops.append((13, [0])); ops.append((13, [1])); ops.append((15, [rng.getrandbits(1)]))
     return Case(cid, cfg, ops, tag="theta-foreign")
 
 
@@ -474,13 +497,29 @@ def mutate(rng, img):
     return b
 
 
+def swapped_image(rng, sh):
+    """an image that says it is ordered although two adjacent entries (at an even or an odd index) are swapped"""
+    variant = rng.choice([1, 2, 3, 3])
+    theta = rng.choice([MAX_THETA, 1 << rng.randint(20, 62)])
+    es = crafted_entries(rng, rng.randint(4, 12), rng.randint(2, 50), theta)
+    if len(es) < 4:
+        es = [10, 20, 30, 40]
+    i = rng.randrange(len(es) - 1)
+    es[i], es[i + 1] = es[i + 1], es[i]
+    return enc_image(variant, es, theta, sh, True, False)
+
+
 def gen_malformed_case(rng, cid, tier):
     """C14: structure-aware mutations of valid images of every variant, and random bytes; Ok values are
     queried by the harness and re-serialized both ways"""
     cfg, _ = cfg_of(rng, lg_k=5)
     sh = cfg[4]
     ops = [(7, [])]
-    for _ in range(14 if tier == "quick" else 40):
+    for k in range(14 if tier == "quick" else 40):
+        if k < 2 or rng.random() < 0.05:
+            img = swapped_image(rng, sh)
+            ops.append((12, img)); ops.append((13, [0])); ops.append((13, [1]))
+            continue
         if rng.random() < 0.06:
             img = [rng.randrange(256) for _ in range(rng.randint(0, 40))]
             if len(img) > 2 and rng.random() < 0.7:
@@ -521,9 +560,10 @@ def gen_size_case(rng, cid, tier, big=False):
 def gen(rng, tier, n=None, focus=None):
     n = n or (120 if tier == "quick" else 1500)
     if focus in ("codec", "layout"):
-        return [gen_codec_case(rng, i, tier) for i in range(n)]
+        bigs = [65536] if tier == "quick" else [65535, 65536, 65537]
+        return [gen_big_codec_case(rng, i, bigs[i]) if i < len(bigs) else gen_codec_case(rng, i, tier) for i in range(n)]
     if focus == "foreign":
-        return [gen_foreign_case(rng, i, tier) for i in range(n)]
+        return [gen_foreign_case(rng, i, tier, big=(i == 0)) for i in range(n)]
     if focus == "malformed":
         return [gen_malformed_case(rng, i, tier) for i in range(n)]
     if focus == "size":
@@ -552,5 +592,5 @@ def nontrivial(case, obs):
     nonempty = any(o and o[0] > 0 for (c, a), o in zip(case.ops, obs or []) if c in (1, 2, 3))
     # a sampling sketch whose updates were all screened out: not empty although it retains nothing
     screened = any(o and len(o) > 3 and o[3] == 0 for (c, a), o in zip(case.ops, obs or []) if c == 7)
-    codec = any(c in (12, 14) for c, a in case.ops)
+    codec = any(c in (12, 14, 15) for c, a in case.ops)
     return (seen and ((len(hs) >= 3 and nonempty) or (len(hs) >= 1 and screened))) or codec
